@@ -83,6 +83,7 @@ void Decoder::read(std::string &v)
 void Decoder::read(uint8_t *s, size_t n)
 {
     need(n);
+    if (n == 0) return; // s may be null (empty vector), memcpy requires non-null
     std::memcpy(s, cur_, n);
     cur_ += n;
 }
@@ -90,6 +91,7 @@ void Decoder::read(uint8_t *s, size_t n)
 void Decoder::read(char *s, size_t n)
 {
     need(n);
+    if (n == 0) return;
     std::memcpy(s, cur_, n);
     cur_ += n;
 }
